@@ -508,6 +508,61 @@ theorem commit_id_after_edit (H : Bytes → Bytes) (s0 : St Commit) (h0 : Inv H 
 /-- The header the hash input starts with is `commit <decimal length> NUL` (evaluated on an instance). -/
 example : hashInput 1 [120, 121] = some [99, 111, 109, 109, 105, 116, 32, 50, 0, 120, 121] := by decide
 
+/-! ### Re-filling a live object from new bytes forgets the old contents -/
+
+/-- Tie to the source (Tag): every attribute that a header branch for an OPTIONAL header assigns (anything but
+`object`, `type`, `tag`, which git's grammar makes mandatory, and the body, which `_parse_message` always
+yields) is reset at the top of `Tag._deserialize`. -/
+theorem tag_optional_attrs_are_reset :
+    ∀ br ∈ OGen.tagBranchAssigns, br.1 ∉ ["_OBJECT_HEADER", "_TYPE_HEADER", "_TAG_HEADER", "None"] →
+      ∀ a ∈ br.2, a ∈ OGen.tagResets := by decide
+
+/-- … and the mandatory branches and the body cover all remaining attributes of a tag. -/
+theorem tag_all_attrs_covered :
+    ∀ a ∈ ["_object_sha", "_object_class", "_name", "_tagger", "_tag_time", "_tag_timezone",
+           "_tag_timezone_neg_utc", "_message", "_signature"],
+      a ∈ OGen.tagResets ∨ ∃ br ∈ OGen.tagBranchAssigns,
+        br.1 ∈ ["_OBJECT_HEADER", "_TYPE_HEADER", "_TAG_HEADER", "None"] ∧ a ∈ br.2 := by decide
+
+/-- Tie to the source (Commit): `Commit._deserialize` assigns every slot of the class unconditionally. -/
+theorem commit_deserialize_assigns_every_slot :
+    ∀ a ∈ OGen.commitSlotAttrs, a ∈ OGen.commitDeserAssigned := by decide
+
+/-- **`refill_forgets` (Commit).**  The parse transition of the cache machine is a function of the new bytes
+only: whatever the live object held (`s`), after `set_raw_string(bytes)` its fields are those of a fresh
+object parsed from the same bytes. -/
+theorem refill_forgets_commit (s : St Commit) (bytes : Bytes) (c : Commit)
+    (h : deserializeCommit bytes = .ok c) :
+    (setRawStep commitCls bytes s).fields = c ∧
+    (setRawStep commitCls bytes s).fields = (setRawStep commitCls bytes (freshInit Commit.empty)).fields := by
+  simp [setRawStep, commitCls, Except.toOpt, h]
+
+/-- **`refill_forgets` (Tag).**  For every text in git's tag grammar (the serialisation of a `WFTag`: with or
+without tagger line, signature, `-0000` flag …) the result of `Tag._deserialize` does not depend on what the
+live object held before — in particular a tagger, time, zone and neg-utc flag of the old text are gone when
+the new text has no tagger line. -/
+theorem refill_forgets_tag (s : St Tag) (bytes : Bytes) (hc : ∃ t, WFTag t ∧ serializeTag t = .ok bytes) :
+    (setRawStep tagCls bytes s).fields = (setRawStep tagCls bytes (freshInit Tag.empty)).fields ∧
+    deserializeTag s.fields bytes = deserializeTag Tag.empty bytes := by
+  obtain ⟨t, hwf, hs⟩ := hc
+  obtain ⟨b1, h1, h2⟩ := tag_roundtrip s.fields t hwf
+  obtain ⟨b2, h3, h4⟩ := tag_roundtrip Tag.empty t hwf
+  rw [hs] at h1 h3
+  cases h1; cases h3
+  refine ⟨?_, by rw [h2, h4]⟩
+  simp [setRawStep, tagCls, Except.toOpt, h2, h4, freshInit]
+
+/-- Witness that the reset matters (model variant without it): a rich tag followed by a tagger-less text keeps
+the old tagger if `_deserialize` starts from the previous attributes instead of `resetTag`. -/
+theorem refill_without_reset_counterexample :
+    let rich : Tag := ⟨some [97], some [116, 114, 101, 101], some [118], some [84, 62], some 1, some 0, some true,
+      some [109], none⟩
+    let poorText : Bytes := [111, 98, 106, 101, 99, 116, 32, 97, 10, 116, 121, 112, 101, 32, 116, 114, 101, 101, 10,
+      116, 97, 103, 32, 118, 10, 10, 109]
+    (deserializeTag rich poorText).toOption.map (·.tagger) = some none ∧
+    (foldFields tagField rich (parseMessageP poorText).1).toOption.map (·.tagger) = some (some [84, 62]) := by
+  decide +kernel
+
 /-- Tie to the source: `Commit._serialize` cuts the final byte of a mergetag text only when it is LF. -/
 theorem mergetag_cut_is_conditional : OGen.mergetagStripConditional = true := rfl
 
